@@ -38,9 +38,12 @@ typedef struct SimEnv {
   uint64_t perm_budget; /* 0 = unlimited */
   /* S5/S8 yield points */
   long yields;
+  /* family probes: calls of one representative matrix kernel per instruction-set family (LowMC-129 key addition) */
+  long k_s256, k_s128, k_u64;
 } SimEnv;
 
 void sim_env_reset(SimEnv* e, int task);
+unsigned sim_host_caps(void); /* SSE2=0x1, AVX2=0x4, BMI2=0x10 as the host really supports them */
 /* current task's environment; NULL outside library calls => wrappers pass straight through */
 SimEnv* sim_env_get(void);
 void sim_env_set(SimEnv* e);
